@@ -176,6 +176,15 @@ theorem reject_whole (n : Node) (h : valid n = false) : ∃ e, compile n = .erro
   | error e => exact ⟨e, rfl⟩
   | ok r => simp [hc, okB] at h
 
+/-- "anywhere", explicitly: a body is rejected iff some node of it — at any depth, under any scope,
+in any branch — is itself bad (`badHere`: unregistered name, wrong shape, unsupported scope). -/
+theorem reject_iff_bad_node_anywhere (n : Node) : (∃ e, compile n = .error e) ↔ anyNode badHere n = true := by
+  have h1 := compile_okB n
+  rw [valid_eq_not_any] at h1
+  cases hc : compile n with
+  | error e => simp [hc, okB] at h1; simp [h1]
+  | ok r => simp [hc, okB] at h1; simp [h1]
+
 /-- "anywhere", spelled out for groups and filters: one bad child/branch poisons the parent,
 whatever the parent's scope (even `[]`) and whatever the siblings. -/
 theorem bad_child_rejects_parent (scope : Scope) (agg : Bool) (pre post : List Node) (c : Node) (p : Int)
